@@ -5,7 +5,7 @@ from mc import driver as D
 
 PROP = 'C19'
 RULE = ('complete product: every placement of one fragment (and of ordered pairs of fragments) from the suspicious / innocent '
-        'alphabet over sheets {first, second with a space and an apostrophe in the title, third non-ASCII} x columns {A,B,C,Y,Z,AA,AZ,BA} x rows '
+        'alphabet over sheets {first, [a chart sheet], second with a space and an apostrophe in the title, third non-ASCII} x columns {A,B,C,Y,Z,AA,AZ,BA} x rows '
         '{1,2,3,12,27}, gate enabled and disabled; expected report built from the planted positions.  non-trivial = workbook '
         'with a suspicious fragment placed where row number != position in the row, or a pair')
 ASSUMPTIONS = ['fragments mixing an upper-case call with a nested lower-case one are outside the alphabet (statement silent)',
@@ -121,6 +121,8 @@ def run_cases(cases, stats):
                 expect[f"'{SHEETS[s]}'{col}{row}"] = frag
         for s in sheets:
             s[1].setdefault('A1', 1)  # no sheet is empty
+        # a chart sheet (a tab that is no worksheet) stands between the first and the second worksheet
+        sheets = sheets[:1] + [('Chart', D.CHART_SHEET)] + sheets[1:]
         nontriv = any(FRAGS[fi][1] and D_col(col) != row for fi, (s, col, row) in c['cells']) or len(c['cells']) > 1
         if nontriv:
             stats['nontrivial'] += 1
